@@ -178,12 +178,14 @@ int remove(const char *path)
 }
 
 int g_rmdir_errno;            /* 0: the last rmdir succeeded; else its errno */
+int g_rmdir_tree;             /* tree of the directory given to the last rmdir */
 int rmdir(const char *path)
 {
 	CRASH_POINT("rmdir");
 	int tree = c09_tree(path);
 	/* a per-thread path must be this thread's (process-level directories: ovni_proc_fini) */
 	VASSERT(!PATH_THR(path) || PATH_TID(path) == g_fs_tid, "rmdir: a thread directory is THIS thread's");
+	g_rmdir_tree = tree;
 	/* only an existing, empty directory can be removed */
 	if (nondet_bool() || path[1] != 0 || !g_dir[tree] || !c09_tree_empty(tree)) {
 		int e = nondet_int();
